@@ -6,6 +6,7 @@ package sqlite
 
 import (
 	"fmt"
+	"math/big"
 	"reflect"
 	"strconv"
 	"strings"
@@ -124,9 +125,11 @@ func (d *diff) defaultChanged(from, to *schema.Column) bool {
 	if to.Type != nil {
 		switch to.Type.Type.(type) {
 		case *schema.IntegerType, *schema.FloatType, *schema.DecimalType:
-			f1, err1 := strconv.ParseFloat(d1, 64)
-			f2, err2 := strconv.ParseFloat(d2, 64)
-			if err1 == nil && err2 == nil && f1 == f2 {
+			// Compare with more precision than a float64 has, as large
+			// integers that differ must not be considered the same number.
+			f1, _, err1 := big.ParseFloat(d1, 10, 512, big.ToNearestEven)
+			f2, _, err2 := big.ParseFloat(d2, 10, 512, big.ToNearestEven)
+			if err1 == nil && err2 == nil && f1.Cmp(f2) == 0 {
 				return false
 			}
 		}
